@@ -291,26 +291,72 @@ theorem disjointness_and_width_needed :
   have := congrArg List.length h
   simp [Cells.readBytes, regsBytes_length, cnt] at this
 
-/-! ## scalar loads return through the register file -/
+/-! ## scalar loads return through the register accessor -/
 
 /-- "the return path of a scalar load is the operand write of the loaded dwords, whatever register
-SDATA names" (what the emulator does: `WriteOperandBytes(inst.Data, 0, buf)`) — kept visible: false. -/
+SDATA names" (what the emulator does: `WriteOperandBytes(inst.Data, 0, buf)`). -/
 def smem_return_is_operand_write : Prop :=
   ∀ (t : TimingRF) (wi n r : Nat) (data : List UInt8), Alloc t → wi < t.wfs.size →
     n < 128 → C04.getOperand n = some (.reg n r 0) → data.length = 8 →
     t.smemReturn wi r 0 data = t.writeOperandBytes wi r 2 0 data
 
-/-- **Refuted (genuine defect, open finding `C07-smem-load-into-special`): `s_load_dwordx2 vcc, …`.**
-SDATA = 106 decodes to `vcc_lo` (`getOperand 106`); `executeSMEMLoad` computes the destination
+/-- the same statement about the return path before the repair (`smemReturnOld`) -/
+def smem_return_is_operand_write_before_fix : Prop :=
+  ∀ (t : TimingRF) (wi n r : Nat) (data : List UInt8), Alloc t → wi < t.wfs.size →
+    n < 128 → C04.getOperand n = some (.reg n r 0) → data.length = 8 →
+    t.smemReturnOld wi r 0 data = t.writeOperandBytes wi r 2 0 data
+
+/-- the registers a 7-bit SDATA field can name exist in the register list and are no VGPRs -/
+def sdataRegOk (n : Nat) : Bool :=
+  match C04.getOperand n with
+  | some (.reg _ r _) => knownReg r && !isVReg r
+  | _ => true
+
+theorem sdata_regs_ok : ∀ n, n < 128 → sdataRegOk n = true := by decide +kernel
+
+/-- **smem_return_is_operand_write_full (repaired code).** For every register a scalar load's SDATA
+can name — SGPRs, VCC, EXEC, M0, FLAT_SCRATCH, XNACK_MASK, TBA/TMA, TTMP — the return path of
+`s_load_dwordx2` is exactly `WriteOperandBytes` of that operand: same store afterwards, same fault
+(registers the accessor does not support fault the same way in both). `s_load_dwordx2 vcc, …` now
+loads VCC; nothing is written outside the loading wavefront. -/
+theorem smem_return_is_operand_write_full : smem_return_is_operand_write := by
+  intro t wi n r data _ _ hn hg hd
+  have hok := sdata_regs_ok n hn
+  unfold sdataRegOk at hok
+  rw [hg] at hok
+  simp only [Bool.and_eq_true, Bool.not_eq_true'] at hok
+  have h := smem_return_operand_write t wi r 0 data (by rw [smemDst_zero]; exact hok.1) (by rw [smemDst_zero]; exact hok.2)
+  rw [h, smemDst_zero, hd]
+
+/-- every piece of every scalar load (any width, any cache-line split) whose destination register
+exists is the operand write of that piece's registers -/
+theorem smem_return_piece_is_operand_write (t : TimingRF) (wi r k : Nat) (data : List UInt8)
+    (hk : knownReg (TimingRF.smemDst r k) = true) (hV : isVReg (TimingRF.smemDst r k) = false) :
+    t.smemReturn wi r k data = t.writeOperandBytes wi (TimingRF.smemDst r k) (data.length / 4) 0 data :=
+  smem_return_operand_write t wi r k data hk hV
+
+/-- the second half of a 64-bit special register follows the first in the register list: a
+`s_load_dwordx2 vcc / exec` split over two cache lines loads `vcc_hi` / `exec_hi` with its second piece -/
+example : TimingRF.smemDst R_VCCLO 1 = R_VCCHI ∧ TimingRF.smemDst R_EXECLO 1 = R_EXECHI := by decide
+
+/-- non-vacuity: `s_load_dwordx2 vcc` on the witness store sets VCC -/
+example : ((t1.smemReturn 0 R_VCCLO 0 [1, 0, 0, 0, 0, 0, 0, 0]).1.wfs.getD 0 default).vcc = 1 ∧
+    (t1.smemReturn 0 R_VCCLO 0 [1, 0, 0, 0, 0, 0, 0, 0]).2 = none := by
+  have hg : C04.getOperand 106 = some (.reg 106 R_VCCLO 0) := by decide
+  rw [smem_return_is_operand_write_full t1 0 106 R_VCCLO [1, 0, 0, 0, 0, 0, 0, 0] t1_alloc (by decide) (by omega) hg rfl]
+  simp [TimingRF.writeOperandBytes, TimingRF.writeReg, TimingRF.write64, TimingRF.setWf, TimingRF.padTo8, u64, t1, leNat,
+    R_SCC, R_VCC, R_VCCLO]
+
+/-- **Refuted before the repair (former finding `C07-smem-load-into-special`): `s_load_dwordx2 vcc, …`.**
+SDATA = 106 decodes to `vcc_lo` (`getOperand 106`); `executeSMEMLoad` computed the destination
 `insts.SReg(RegIndex() + k)` with `RegIndex() = −1`, i.e. `Regs[S0 − 1] = v255`, and
-`handleScalarDataLoadReturn` writes it with `SRegFile.Write`: VCC keeps its old value (the accessor would
-have set it to the loaded value). Concrete input: bytes `82 1a 06 c0 00 00 00 00`; replayed on the real
-scalar unit by harness/c07_disp.go (`C07.smem-return.special`). -/
-theorem smem_return_is_operand_write_refuted : ¬ smem_return_is_operand_write := by
+`handleScalarDataLoadReturn` wrote it with `SRegFile.Write`: VCC kept its old value (the accessor would
+have set it to the loaded value). Concrete input: bytes `82 1a 06 c0 00 00 00 00`. -/
+theorem smem_return_is_operand_write_before_fix_refuted : ¬ smem_return_is_operand_write_before_fix := by
   intro h
   have hg : C04.getOperand 106 = some (.reg 106 R_VCCLO 0) := by decide
   have := h t1 0 106 R_VCCLO [1, 0, 0, 0, 0, 0, 0, 0] t1_alloc (by decide) (by omega) hg rfl
-  have h1 := (smem_return_special t1 0 R_VCCLO [1, 0, 0, 0, 0, 0, 0, 0] nS_vcclo nV_vcclo).1
+  have h1 := (smem_return_special_before_fix t1 0 R_VCCLO [1, 0, 0, 0, 0, 0, 0, 0] nS_vcclo nV_vcclo).1
   rw [this] at h1
   have h2 : ((t1.writeOperandBytes 0 R_VCCLO 2 0 [1, 0, 0, 0, 0, 0, 0, 0]).1.wfs.getD 0 default).vcc = 1 := by
     simp [TimingRF.writeOperandBytes, TimingRF.writeReg, TimingRF.write64, TimingRF.setWf, TimingRF.padTo8, u64, t1, leNat,
@@ -347,18 +393,18 @@ theorem smem_return_is_operand_write_partial (t : TimingRF) (wi i k m : Nat) (da
 
 example : Alloc t0 ∧ 4 + 2 + 2 ≤ (t0.wf 0).ns := ⟨t0_alloc, by decide⟩
 
-/-- **What happens instead for a special-register destination.** For SDATA neither SGPR nor VGPR (VCC,
-M0, EXEC, FLAT_SCRATCH, …) the return path changes no wavefront record — the destination register is
+/-- **What happened before the repair for a special-register destination.** For SDATA neither SGPR nor VGPR (VCC,
+M0, EXEC, FLAT_SCRATCH, …) the old return path changed no wavefront record — the destination register is
 never written — and no vector file; the only bytes of the scalar file that can change are
 `[SRegOffset + 1020, SRegOffset + 1020 + 4·dwords)`, which lie outside the loading wavefront's own SGPR
 window: registers of another resident wavefront, or free space (breaking `Clean`). -/
-theorem smem_load_into_special_register_lost (t : TimingRF) (wi r : Nat) (data : List UInt8)
+theorem smem_load_into_special_register_lost_before_fix (t : TimingRF) (wi r : Nat) (data : List UInt8)
     (hS : isSReg r = false) (hV : isVReg r = false) :
-    (t.smemReturn wi r 0 data).1.wfs = t.wfs ∧ (t.smemReturn wi r 0 data).1.vfiles = t.vfiles ∧
+    (t.smemReturnOld wi r 0 data).1.wfs = t.wfs ∧ (t.smemReturnOld wi r 0 data).1.vfiles = t.vfiles ∧
     (∀ p, ¬ ((t.wf wi).soff + 1020 ≤ p ∧ p < (t.wf wi).soff + 1020 + 4 * cnt (data.length / 4)) →
-      get (t.smemReturn wi r 0 data).1.sfile p = get t.sfile p) ∧
+      get (t.smemReturnOld wi r 0 data).1.sfile p = get t.sfile p) ∧
     ((t.wf wi).ns ≤ 102 → ∀ p, (t.wf wi).soff + 1020 ≤ p → ¬ ownS (t.wf wi) p) :=
-  smem_return_special t wi r data hS hV
+  smem_return_special_before_fix t wi r data hS hV
 
 example : isSReg R_VCCLO = false ∧ isVReg R_VCCLO = false ∧ isSReg R_M0 = false ∧ isVReg R_EXECLO = false := by decide
 
